@@ -68,6 +68,7 @@ PROBES = [
     '$m: (z: 1, a: 2, m: 3); a{b:inspect($m) map-keys($m)}',
 ]
 STYLES = ["expanded", "compressed"]
+PRECS = [5, 10, 10, 2]
 
 
 def ensure_files():
@@ -81,8 +82,8 @@ def ensure_files():
 
 def gen_cases(ctx, tier):
     rng = ctx.rng
-    nseq, nthr = (150, 60) if tier == "quick" else (3000, 1200)
-    pool = [sheetgen.gen_sheet(rng, rng.choice([0.0, 0.0, 0.3])) for _ in range(120 if tier == "quick" else 1200)]
+    nseq, nthr = (100, 40) if tier == "quick" else (3000, 1200)
+    pool = [sheetgen.gen_sheet(rng, rng.choice([0.0, 0.0, 0.3])) for _ in range(60 if tier == "quick" else 1200)]
 
     def pick():
         return rng.choice(PROBES) if rng.random() < 0.55 else rng.choice(pool)
@@ -93,11 +94,12 @@ def gen_cases(ctx, tier):
     cases.append({"mode": "seq", "items": [[p, "compressed", 5] for p in reversed(PROBES)]})
     for _ in range(nseq):
         k = rng.randint(1, 50)
-        cases.append({"mode": "seq", "items": [[pick(), rng.choice(STYLES), rng.choice([0, 3, 5, 10, 12])] for _ in range(k)]})
+        cases.append({"mode": "seq", "items": [[pick(), rng.choice(STYLES), rng.choice(PRECS)] for _ in range(k)]})
     for _ in range(nthr):
         k = rng.randint(1, 8)
-        cases.append({"mode": "threads", "n": rng.randint(2, 16), "style": rng.choice(STYLES), "prec": rng.choice([0, 5, 10]),
+        cases.append({"mode": "threads", "n": rng.randint(2, 16), "style": rng.choice(STYLES), "prec": rng.choice(PRECS),
                       "srcs": [pick() for _ in range(k)]})
+    precompute(cases)
     return cases
 
 
@@ -107,6 +109,23 @@ def search_cases(ctx, broken):
     c = C()
     c.rng = ctx.rng
     return gen_cases(c, "quick")[:120]
+
+
+_OBS = {}
+
+
+def ckey(c):
+    import json
+    return json.dumps({k: v for k, v in c.items() if not k.startswith("_")}, sort_keys=True)
+
+
+def precompute(cases):
+    """run all histories and all baselines in parallel (one harness process each)"""
+    ensure_files()
+    with ThreadPoolExecutor(max_workers=NCPU) as ex:
+        for c, r in zip(cases, ex.map(observe, cases)):
+            _OBS[ckey(c)] = r
+    baseline([k for c in cases for k in _OBS[ckey(c)][0]])
 
 
 def impl_requests(c):
@@ -158,7 +177,7 @@ def observe(c):
 
 
 def coq_term(c, io):
-    keys, obs = observe(c)
+    keys, obs = _OBS.pop(ckey(c), None) or observe(c)
     base = baseline(keys)
     comps = [f"(mkComp {cz(b[0])} {cz(b[1])} {cz(o[0])} {cz(o[1])})" for b, o in zip(base, obs)]
     bad = [i for i, (b, o) in enumerate(zip(base, obs)) if b != o]
